@@ -781,6 +781,35 @@ class Interp:
     def e_Lambda(s, n, env):
         return LocalFn(n, env)
 
+    def s_AnnAssign(s, n, env):
+        if n.value is not None:                  # `x: int = 3`; a bare annotation binds nothing
+            s.assign(n.target, s.ev(n.value, env), env)
+
+    def s_While(s, n, env):
+        k = 0
+        while s.truth(s.ev(n.test, env)):
+            k += 1
+            if k > 256:
+                raise Unsupported('while loop with more than 256 iterations (no invariant)')
+            try:
+                s.run(n.body, env)
+            except Brk:
+                return
+            except Cont:
+                continue
+        s.run(n.orelse, env)
+
+    def e_NamedExpr(s, n, env):
+        v = s.ev(n.value, env)
+        s.assign(n.target, v, env)
+        return v
+
+    def s_Global(s, n, env):
+        raise Unsupported('global statement')
+
+    def s_Nonlocal(s, n, env):
+        raise Unsupported('nonlocal statement')
+
     def s_Expr(s, n, env):
         if isinstance(n.value, ast.Constant):
             return
